@@ -258,8 +258,8 @@ func v2serRepeat(p *psetv2.Pset) (b64, st, verdict string) {
 		return b64, st, fail("ser.panic", v2panicDetail(p))
 	}
 	n, why := 2, "other"
-	if v2multiMap(p) {
-		n, why = 20, "map-order"
+	if v2multiMap(p) { // an order that depends on map iteration shows with probability >= 1/8 per call
+		n, why = 64, "map-order"
 	}
 	for i := 1; i < n; i++ {
 		if again, st2 := v2ser(p); st2 != st || again != b64 {
@@ -295,6 +295,7 @@ func checkC07Pset(t *Toks) string {
 	if st != "ok" {
 		return fail("ser.error", "other")
 	}
+	v2history(v2unb64(b64)) // corrupted copies first: the genuine parse must not depend on them
 	q, st := v2parse64(b64)
 	switch st {
 	case "panic":
@@ -313,6 +314,7 @@ func checkC07PsetRaw(t *Toks) string {
 	v2skipOracle(t)
 	bs := t.Hex()
 	pairs := v2walk(bs)
+	v2history(bs)
 	p, st := v2parse(bs)
 	switch st {
 	case "panic":
